@@ -197,14 +197,17 @@ _pb("C08", "contract-based deductive verification (pyvc) of the five counting bl
     "the pre-fix code). The conservation equations over whole grammars are bounded only.",
     "block contracts proved, conservation equations bounded; 'other'")
 
-_pb("C14", "contract-based deductive verification (pyvc) of the loop bodies of _uncollapse_unary_chains and _collapse_unary_chains as block contracts (allocation, label split/concatenation, re-linking, frame); bounded stand-in for the round trips and for binarization",
+_pb("C14", "contract-based deductive verification (pyvc) of the loop bodies of _uncollapse_unary_chains, _collapse_unary_chains and _binarize_tree as block contracts (allocation, label split/concatenation/@-label, re-linking, frame); bounded stand-in for the round trips",
     "Uncollapse step: a fresh node is inserted between `tree` and its former parent, label(unary) + '+' + label'(tree) is "
     "the old label and label(unary) has no '+', every other field is copied, nothing else changes, links stay consistent and "
     "`top` stays the first node inserted (so the topmost node is returned). Collapse step: the label becomes "
     "label(tree) + '+' + label(only child), the child's ordered children become tree's children and point to it, a token "
-    "child's num/word/lemma are pulled up, nothing else changes. Both on an arbitrary heap, for every label string. The "
-    "composition over iterations and recursion, binarization and the round trips are bounded only.",
-    "block contracts proved for one iteration of each loop, the property itself bounded; 'other'")
+    "child's num/word/lemma are pulled up, nothing else changes. Binarization step: one fresh head-marked node labelled '@' "
+    "(bare) or '@' + the parent label without its co-index (over the proved contracts of parse_label/format_label) and the "
+    "outermost remaining child on the side away from the head are appended to the current node, the direction turns right at "
+    "the head, nothing else changes. All on an arbitrary heap, for every label string. The composition over iterations and "
+    "recursion, the final two children of binarization, the rejection of unmarked nodes and the round trips are bounded only.",
+    "block contracts proved for one iteration of each of the three loops, the property itself bounded; 'other'")
 PROPS["C16"]["technique"] = ("contract-based deductive verification (pyvc VCs from the real AST, z3) of gap_degree_node, has_gaps, gap_type, "
                              "terminal_blocks, gap_degree, SentenceCount.run, PosTags.run, GapDegree.run + bounded stand-in for the printed "
                              "reports, three-way agreement, disco_order")
